@@ -30,11 +30,15 @@ def _attr_cases(ctx, stride):
     r = ctx.tlc("Attributes", "Attributes.cfg", constants={"Small": "TRUE"}, tag="pool-attr", workers=4)
     out = []
     for i, rec in enumerate(r.json_records()):
-        if i % stride:
+        # the core of the wildcard semantics is always in: no declarations, the widest constraint, ONE attribute
+        core = (rec["d0"]["use"] == "none" and rec["dT"]["use"] == "none" and rec["w"]["c"] == "any"
+                and sum(1 for v in rec["inst"].values() if v != "absent") == 1)
+        if i % stride and not core:
             continue
         if c03.known(rec, "rejects-valid") or c03.known(rec, "accepts-invalid") or c03.known(rec, "decoded"):
             continue
-        out.append({"origin": "attributes", "xsds": [c03.schema_xsd(rec["d0"], rec["dT"], rec["w"], i % 8),
+        out.append({"origin": "attributes-core" if core else "attributes",
+                    "xsds": [c03.schema_xsd(rec["d0"], rec["dT"], rec["w"], i % 8),
                                                      c03.XSD_A],
                     "xml": c03.instance_xml(rec["inst"]), "spec_valid": rec["valid"],
                     "about": f"attrs {rec['inst']}"})
